@@ -87,7 +87,7 @@ SRC = {
     "C08": "get_levels_tree_from_i (= levels, for every arity array); the Python-level operator shrink_mutation (= shrinkMut at the drawn position and argument, through the translated Tree methods); Tree.get_levels / get_max_level (= levels / depth) and the Python-level operator standard_crossover (= standardX at the drawn positions and coin; child well-formed, no deeper than max_level, one subtree transplanted or a parent); Tree.get_common_region for two trees (= commonRegion2) and one_point_crossoverGP (= onePointX at the drawn common-region position; child well-formed, no deeper than the deeper parent); growing_mutation (= growMut with the fresh tree grown under the budget max(get_levels(i)) = depth of the replaced subtree; with a grower that respects its budget the child is no deeper than the parent); point_mutation (= pointMut: exactly the drawn node replaced, arity array untouched, replacement drawn for the arity recorded in the node); swap_mutation (= swapMut at the drawn multi-argument node with the inverse of the sattolo shuffle: the argument subtrees of one node permuted, spliced from the last position to the first); Tree.full_growing_method / growing_method (= the model-side stack run growRun, whose result growInit accepts unchanged: well-formed, no deeper than max_level); GeneticProgramming._get_new_individ_g (the wiring of one offspring)",
     "C09": "find_end_subtree_from_i, find_id_args_from_i, find_first_difference_between_two, common_region_two_trees, Tree.subtree_id / subtree / concat, Tree.get_levels / get_max_level (= levels / depth), Tree.get_common_region for two trees (= commonRegion2) (equal to the model on every well-formed tree, with no out-of-range access)",
     "C11": "binary_search_interval, check_for_value, argsort_k, tournament_selection (incl. the arguments it passes to random_sample: len(fitness), tour_size, replace=False), proportional_selection / rank_selection (weights = fitness / rank, with replacement), sattolo_shuffle, random_sample, random_weighted_sample",
-    "C14": "SelfCGA._adapt (the wiring of one adaptation step: each table updated once from the operators of its own kind with its own threshold; the next operators drawn from the updated table of their own kind)",
+    "C14": "SelfCGA._adapt (the wiring of one adaptation step: each table updated once from the operators of its own kind with its own threshold; the next operators drawn from the updated table of their own kind); PDPGA._get_new_individ_g (one remembered parent fitness per offspring, picked among the raw fitness of the selected parents)",
     "C16": "EvolutionaryAlgorithm._get_n_jobs (= normJobs), _split_population (= Split.split on the points np.linspace(0, pop_size, n_jobs + 1) - which points are asked for is part of the statement; with C16_split the chunks are non-empty and cover the population once)",
     "C17": "EvolutionaryAlgorithm._update_data (what is recorded per generation: the generation's own series, and max_fitness / max_g / max_ph taken at the same index, the first maximum of the fitness series)",
     "C19": "the integer counting loops of recall_score, precision_score and f1_score (= recallLoop / precisionLoop / f1Loop; in range on admissible labels)",
